@@ -181,7 +181,7 @@ def runProgram (line : String) : List String :=
         let (mf, stop) := match mo with | .fields f => (f, false) | .stop f => (f, true)
         let acc := s!"{pid}.{i} M {mf}" :: acc
         let acc := match so.line with
-          | some l => s!"{pid}.{i} S {l}" :: acc
+          | some l => if mf.startsWith "r=skip" || mf.startsWith "r=badprog" then acc else s!"{pid}.{i} S {l}" :: acc
           | none => acc
         let acc := if excuse.isEmpty then acc else s!"{pid}.{i} X {String.intercalate " " excuse}" :: acc
         if stop then acc.reverse else go ps' so.s tn (i + 1) rest acc
